@@ -394,8 +394,11 @@ def loopstate_cases(tier):
                 for slot_in_loop in (False, True):
                     for nested in (False, True):
                         for only in (False, True):
-                            yield {"d_in": d_in, "d_out": d_out, "with_between": with_between, "slot_in_loop": slot_in_loop,
-                                   "nested": nested, "only": only}
+                            for top in (False, True):
+                                # top: the whole page is the template of a component, so every loop runs inside a (deferred)
+                                # component render and the inner components are rendered after the loops have finished
+                                yield {"d_in": d_in, "d_out": d_out, "with_between": with_between, "slot_in_loop": slot_in_loop,
+                                       "nested": nested, "only": only, "top": top}
 
 
 def loopstate_build(c):
@@ -425,6 +428,9 @@ def loopstate_build(c):
     else:
         tpl = "".join("{% slot '" + n + "' / %}" for n in reversed(slot_names))
     comps = {"ls_c": tpl, "ls_wrap": "(W{% slot 'default' default / %})"}
+    if c.get("top"):
+        comps["ls_top"] = page
+        page = "{% component 'ls_top' / %}"
 
     def counters(idx_in, idx_out):
         # innermost first: inner loops reversed, then the loops around the tag reversed
@@ -452,7 +458,7 @@ def loopstate_run(c, mode):
     slot_names = ["".join(t) for t in itertools.product(LS_ITEMS, repeat=c["d_in"])] if c["d_in"] else ["z"]
 
     def gcd(self, **kw):
-        return {"slot_names": list(reversed(slot_names))}
+        return {"slot_names": list(reversed(slot_names)), "items": list(LS_ITEMS)}
 
     for name, tpl in comps.items():
         if name in registry.all():
@@ -488,7 +494,7 @@ def loopstate_worker(w, W, payload):
         agg.expected["depth_in=%d,out=%d" % (c["d_in"], c["d_out"])] += 1
         agg.observe(got)
         if got != ("ok", want):
-            agg.fail(f"{mode}:loop-state:in={c['d_in']},out={c['d_out']}" + (",with" if c["with_between"] else "") + (",nested" if c["nested"] else ""),
+            agg.fail(f"{mode}:loop-state:in={c['d_in']},out={c['d_out']}" + (",with" if c["with_between"] else "") + (",nested" if c["nested"] else "") + (",top" if c.get("top") else ""),
                      f"[{mode}] page {page!r} with ls_c = {comps['ls_c']!r}: expected {want!r}, got {got!r}",
                      {"mode": mode, "family": "loopstate", "case": c, "page": page})
     return agg
